@@ -104,6 +104,26 @@ func (e *Engine) entryProvider(fn *ssa.Function, args, bind []Val, st *State) fu
 				}
 			}
 		}
+		// a parameter of a lexically enclosing function that this closure does not capture (any more): the contract may
+		// still speak about it; from the closure's point of view its value is arbitrary
+		if e.ctxParent == nil {
+			for par := fn.Parent(); par != nil; par = par.Parent() {
+				for _, p := range par.Params {
+					if p.Name() == name {
+						key := "enclosing:" + par.Name() + ":" + name
+						if e.enclosing == nil {
+							e.enclosing = map[string]Val{}
+						}
+						if v, ok := e.enclosing[key]; ok {
+							return v, true
+						}
+						v := e.symbolic(e.inputState, p.Type(), name)
+						e.enclosing[key] = v
+						return v, true
+					}
+				}
+			}
+		}
 		// closure verified in the context of its parent: the parent's parameters are in scope as well
 		if e.ctxParent != nil && fn.Parent() == e.ctxParent {
 			for i, p := range e.ctxParent.Params {
